@@ -206,7 +206,8 @@ Definition num_precedence (n : number) : N :=
       else PREC_Add
   | NDbl bits => if dbl_negative bits then PREC_Mul else PREC_Atom
   | NCDbl _ _ => PREC_Add
-  | NInf _ | NNaN => PREC_Atom
+  | NInf d => if (d <? 0)%Z then PREC_Mul else PREC_Atom      (* "-oo" starts with a sign *)
+  | NNaN => PREC_Atom
   end.
 
 Definition precedence (e : expr) : N :=
